@@ -8,8 +8,10 @@ from . import build as B
 from . import runner as RN
 
 VERIF = B.VERIF
-EVIDENCE_DIR = os.path.join(VERIF, "evidence")
-REPLAY_DIR = os.path.join(VERIF, "replays")
+# VERIF_EVIDENCE / VERIF_REPLAYS exist only for runs against a patched scratch
+# copy (seeded changes): those must not overwrite the evidence of /repo itself
+EVIDENCE_DIR = os.environ.get("VERIF_EVIDENCE") or os.path.join(VERIF, "evidence")
+REPLAY_DIR = os.environ.get("VERIF_REPLAYS") or os.path.join(VERIF, "replays")
 KNOWN = os.path.join(VERIF, "known_findings.json")
 NCPU = int(os.environ.get("VERIF_JOBS", os.cpu_count() or 16))
 
